@@ -132,6 +132,8 @@ class Check(object):
         return 1 if vseen else 0
 
     def write_evidence(self, nviol, nknown):
+        if os.environ.get('VERIF_NO_EVIDENCE'):
+            return
         os.makedirs(EVIDENCE_DIR, exist_ok=True)
         per_rule = {}
         for o in self.obls:
